@@ -151,10 +151,9 @@ macro_rules! toml_internal {
 
     // Parse table header `[patch.crates-io]`.
     (@toplevel $root:ident $oldpath:tt [$($($path:tt)-+).+] $($rest:tt)*) => {
-        $crate::macros::insert_toml(
+        $crate::macros::table_toml(
             &mut $root,
-            &[$(&concat!($("-", $crate::toml_internal!(@path $path),)+)[1..],)+],
-            $crate::Value::Table($crate::value::Table::new()));
+            &[$(&concat!($("-", $crate::toml_internal!(@path $path),)+)[1..],)+]);
         $crate::toml_internal!(@toplevel $root [$(&concat!($("-", $crate::toml_internal!(@path $path),)+)[1..],)+] $($rest)*);
     };
 
@@ -406,6 +405,16 @@ macro_rules! toml_internal {
 // Inserts an entry into the table at the given path.
 pub fn insert_toml(root: &mut Value, path: &[&str], value: Value) {
     *traverse(root, path) = value;
+}
+
+// Called when parsing a `[table header]`.
+// Makes sure a table exists at the given path, keeping what was already put below it
+// (`[a.b]` may come before `[a]`).
+pub fn table_toml(root: &mut Value, path: &[&str]) {
+    let target = traverse(root, path);
+    if !target.is_table() {
+        *target = Value::Table(Table::new());
+    }
 }
 
 // Called when parsing an `[[array header]]`.
